@@ -282,6 +282,89 @@ def mj_ref(lists):
             cur[cc].remove(med[cc])
 
 
+def mj_removal_seq(l):
+    """the removal sequence (majority value) of one candidate: its lower median, the lower median after that grade is
+    taken out once, and so on until no grade is left - a function of the candidate's own sorted grades only"""
+    l, out = list(l), []
+    while l:
+        m = l[(len(l) - 1) // 2]
+        out.append(m)
+        l.remove(m)
+    return out
+
+
+def mj_seq_cmp(sa, sb):
+    """lexicographic comparison of two removal sequences: -1 / 1 at the first entry where they differ; None when one of
+    them ends before any difference (the order of the two candidates is then undefined)"""
+    for x, y in zip(sa, sb):
+        if x != y:
+            return -1 if x < y else 1
+    return None
+
+
+def mj_top(lists, n):
+    """majority judgment for n seats as documented, declaratively: the set of n candidates each of which is
+    lexicographically strictly above every candidate outside the set (C12_mj_seats_default); None when no such set
+    exists (an unbreakable tie at the cut, or a candidate at the cut runs out of grades)"""
+    cands = sorted(lists)
+    if n >= len(cands):
+        return set(cands)
+    seqs = {cc: mj_removal_seq(l) for cc, l in lists.items()}
+    need = len(cands) - n
+    top = {cc for cc in cands if sum(1 for d in cands if d != cc and mj_seq_cmp(seqs[cc], seqs[d]) == 1) >= need}
+    if len(top) == n and all(mj_seq_cmp(seqs[cc], seqs[d]) == 1 for cc in top for d in cands if d not in top):
+        return top
+    return None
+
+
+def mj_seats_spec(c, v):
+    """the n-seat clauses on the implementation's answer (truncation off): default = the top-n set of the removal-sequence
+    order, no tie object; plus = plain winners strictly ahead in the count of grades at or above the shared median,
+    the members of a reported tie level in it"""
+    lists = mj_lists(c['cfg'], c['votes'])
+    if lists is None:
+        return None
+    n, m = c['n'], len(lists)
+    med = {cc: l[(len(l) - 1) // 2] for cc, l in lists.items()}
+    if c.get('plus'):
+        if v[0] != 0:
+            return None
+        res = v[1]
+        plain = [r for r in res if not isinstance(r, list)]
+        ties = [r for r in res if isinstance(r, list)]
+        cnt = {cc: sum(1 for s in lists[cc] if s >= med[cc]) for cc in lists}
+        if len(res) != min(n, m) or len(set(plain)) != len(plain):
+            return 'majority judgment plus returns %s for %d seats and %d candidates' % (res, n, m)
+        for cc in plain:
+            for d in lists:
+                if d not in plain and (med[d] > med[cc] or (med[d] == med[cc] and cnt[d] >= cnt[cc])):
+                    return ('majority judgment plus (%d seats) elects %d (median %s, %d grades at or above) and leaves out %d (median %s, %d)'
+                            % (n, cc, med[cc], cnt[cc], d, med[d], cnt[d]))
+        for t in ties:
+            for cc in t:
+                for d in lists:
+                    if d not in plain and (med[d] > med[cc] or (med[d] == med[cc] and (cnt[d] > cnt[cc] or (d in t and cnt[d] != cnt[cc])))):
+                        return ('majority judgment plus (%d seats) reports the tie %s although %d (median %s, %d grades at or above) and %d (median %s, %d) differ'
+                                % (n, t, cc, med[cc], cnt[cc], d, med[d], cnt[d]))
+        return None
+    want = mj_top(lists, n)
+    if v[0] != 0 or any(isinstance(r, list) for r in v[1]):
+        if want is not None and n < m:
+            return ('majority judgment (default tie-break, %d seats) answers %s, the removal sequences separate the top %d: %s'
+                    % (n, c.get('_exc') or v[1], n, sorted(want)))
+        return None
+    res = v[1]
+    if len(res) != min(n, m) or len(set(res)) != len(res) or any(r not in lists for r in res):
+        return 'majority judgment (default) returns %s for %d seats and %d candidates' % (res, n, m)
+    seqs = {cc: mj_removal_seq(l) for cc, l in lists.items()}
+    for cc in res:
+        for d in lists:
+            if d not in res and mj_seq_cmp(seqs[d], seqs[cc]) != -1:
+                return ('majority judgment (default tie-break, %d seats) elects %d (removal sequence %s) and leaves out %d (%s), which is not '
+                        'lexicographically below' % (n, cc, [str(x) for x in seqs[cc]], d, [str(x) for x in seqs[d]]))
+    return None
+
+
 def alloc_ref(votes, n, quota_name):
     """independent allocated-score count: per seat the highest weighted score sum wins and one quota of its
     strongest supporters (highest score for the winner first, proportional cut at the boundary) is spent.
@@ -425,6 +508,11 @@ def spec(c, io, mo):
             c['_class'] = 'mj-default-reentry'
             return ('majority judgment (default tie-break) answers %s, successive median removal among the level candidates elects %d'
                     % (c.get('_exc') or v[1], want))
+    if u == 'mj' and q(c['cfg']['trunc']) == 0 and (v[0] == 0 or v[1] in (common.E['VSE'], common.E['STATS'])):
+        bad = mj_seats_spec(c, v)
+        if bad is not None:
+            c['_class'] = 'mj-seats'
+            return bad
     if u == 'star' and v[0] == 0 and c['n'] == 1:
         sums = {}
         for b, w in c['votes']:
@@ -641,6 +729,51 @@ def gen_focus(rng, count):
         yield c
 
 
+def gen_mj_seats(rng, count):
+    """boundary stream for the n-seat majority-judgment clauses: (a) few grades over 3..5 candidates, complete or partial
+    ballots, so that the cut between elected and not elected often falls inside a group of equal medians, for every seat
+    count; (b) candidates whose grade columns are small mutations (at the far ends) of one common column, so that the
+    removal sequences agree on a long prefix: many removal rounds, multi-copy steps, several seats decided by the same
+    loop, exact copies (unbreakable ties) included"""
+    for _ in range(count):
+        kind = rng.choice(['level', 'level', 'columns', 'columns', 'columns'])
+        cfg = dict(fn='median_low', unscored='none', min_count=0, trunc='0', bottom='0')
+        if kind == 'level':
+            m = rng.randint(3, 5)
+            g = rng.choice([1, 2, 2, 3])
+            full = rng.random() < 0.6
+            rows = {}
+            for _ in range(rng.randint(2, 7)):
+                cs = list(range(1, m + 1)) if full else sorted(rng.sample(range(1, m + 1), rng.randint(1, m)))
+                b = tuple((cc, rng.randint(0, g)) for cc in cs)
+                rows[b] = rng.randint(1, 3)
+            if not full:
+                cfg['unscored'] = rng.choice(['none', '0', 'min'])
+        else:
+            m = rng.randint(3, 5)
+            nv = rng.randint(4, 9)
+            g = rng.choice([2, 3, 4])
+            base = sorted(rng.randint(0, g) for _ in range(nv))
+            if rng.random() < 0.5:
+                mid = base[(nv - 1) // 2]          # a heavy median grade: several copies go in one step
+                base = sorted(base[:2] + [mid] * (nv - 4) + base[-2:])
+            cols = []
+            for _cc in range(m):
+                col = list(base)
+                for _ in range(rng.choice([0, 1, 1, 2])):
+                    i = rng.choice([0, 0, 1, nv - 2, nv - 1, nv - 1])
+                    col[i] = min(g, max(0, col[i] + rng.choice([-1, 1])))
+                rng.shuffle(col)
+                cols.append(col)
+            rows = {}
+            for i in range(nv):
+                b = tuple((cc + 1, cols[cc][i]) for cc in range(m))
+                rows[b] = rows.get(b, 0) + 1
+        votes = [[[list(x) for x in b], w] for b, w in rows.items()]
+        mm = len({cc for b, _ in votes for cc, _ in b})
+        yield dict(unit='mj', votes=votes, n=rng.randint(1, mm), cfg=cfg, plus=rng.random() < 0.25)
+
+
 def corpus():
     import os, json, glob
     for p in sorted(glob.glob(os.path.join(common.VERIF, 'corpus', ID, '*.json'))):
@@ -652,6 +785,7 @@ def explore(ctx, widen=1):
     ctx.differential('corpus', corpus(), model_line, impl, **kw)
     ctx.differential('random', gen(ctx.rng, ctx.n(3000, 40000) * widen), model_line, impl, **kw)
     ctx.differential('single-seat-level', gen_focus(ctx.rng, ctx.n(1500, 15000) * widen), model_line, impl, **kw)
+    ctx.differential('mj-seats-level', gen_mj_seats(ctx.rng, ctx.n(3000, 30000) * widen), model_line, impl, **kw)
     ctx.differential('alloc-exact-quota', gen_alloc_exact(ctx.rng, ctx.n(3000, 20000) * widen), model_line, impl, **kw)
     ctx.differential('alloc-model', gen_alloc_model(ctx.rng, ctx.n(4000, 40000) * widen), model_line, impl, **kw)
 
